@@ -547,6 +547,36 @@ def pullChild (restoreOnFailure : Bool) (w : W) (l : String) (fails : Bool) : W 
   if fails && !restoreOnFailure then { w with children := tmp }
   else { w with children := labelBack w.children tmp }
 
+/-! ## In-place `child.load()` of a workflow child -/
+
+/-- the data channels of a node keyed as `Node.load` keys them: (class of the channel, label) -/
+def keyedChans (c : Child) : List ((Bool × String) × Nat) :=
+  c.ins.map (fun lc => ((true, lc.1), lc.2)) ++ c.outs.map (fun lc => ((false, lc.1), lc.2))
+
+/-- `new_channels.get(…)`: by (class, label) — the code as it is —, or by label only, where the
+dict comprehension lets the LAST channel of that label win (an output over the same-named input) -/
+def loadedChannel (byLabelOnly : Bool) (new : Child) (key : Bool × String) : Option Nat :=
+  if byLabelOnly then ((keyedChans new).reverse.find? (fun e => e.1.2 == key.2)).map (·.2)
+  else ((keyedChans new).find? (fun e => e.1 == key)).map (·.2)
+
+/-- `child.load()` in place: `__setstate__` gives the node NEW channel objects (`new`: same labels,
+fresh ids, stored values); every old channel hands its connections to the loaded channel found
+for it (`new.connections = old.connections`, the partners list `new` where they listed `old`, the
+old channel lets go).  The node stays where it is in `children`, under its label. -/
+def loadChild (byLabelOnly : Bool) (w : W) (label : String) (new : Child) : W × Res :=
+  match w.children.find? (fun d => d.label == label) with
+  | none => (w, .refused)
+  | some old =>
+    let pairs := (keyedChans old).filterMap fun e => (loadedChannel byLabelOnly new e.1).map fun cn => (e.2, cn)
+    let g1 := registerChans (registerChans w.g .dataIn (new.ins.map Prod.snd)) .dataOut (new.outs.map Prod.snd)
+    ({ w with children := w.children.map (fun d => if d.label == label then { new with label := label } else d),
+              g := moveConns g1 pairs }, .ok)
+
+/-- what `panel[key]` would give if item access went through `getattr(panel, key)`: a name that
+is an attribute or method of the panel class shadows the channel (NOT what the code does) -/
+def itemViaGetattr (classAttrs : List String) (p : Panel) (k : String) : Option Nat :=
+  if classAttrs.contains k then none else panelGet p k
+
 /-- the run-return variant that leaves out outputs still holding the `NOT_DATA` placeholder
 (NOT what the code does; see `C15_return_keys`) -/
 def runReturnSkipND (w : W) : Option (List (String × Val)) :=
@@ -576,6 +606,8 @@ inductive Op
   | relabel (old : String) (new : LabelArg)
   /-- `child.pull()` / `child()`; `fails` = the upstream run raised -/
   | pull (label : String) (fails : Bool)
+  /-- `child.load()` in place -/
+  | load (label : String) (new : Child)
   deriving Repr
 
 def step (w : W) : Op → W × Res
@@ -600,6 +632,7 @@ def step (w : W) : Op → W × Res
   | .replace l c => replaceChild w l c
   | .relabel o n => relabelChild false w o n
   | .pull l f => (pullChild true w l f, .ok)
+  | .load l c => loadChild false w l c
 
 /-- `wf.inputs` / `wf.outputs` as the code runs it: the getter cleans the stored map (state
 change; its exception escapes), then `_build_io` reads it -/
